@@ -546,8 +546,10 @@ void sim_own_end(void *ctx) {
 
 static void worker(int t) {
   if (t == 0 && P->obj[0].local) {
-    const struct opinfo *oo = NULL;
-    for (int i = 0; i < group_n[P->obj[0].group]; i++) {
+    // which owner function runs (address published first / textually later / object is a parameter) is decided by the
+    // thread's first operation; the operation codes mean the same in all of them
+    const struct opinfo *oo = P->nops[0] > 0 && optable[P->ops[0][0].op].storage == 7 ? &optable[P->ops[0][0].op] : NULL;
+    for (int i = 0; !oo && i < group_n[P->obj[0].group]; i++) {
       const struct opinfo *c = &optable[group_ops[group_first[P->obj[0].group] + i]];
       if (c->storage == 7) { oo = c; break; }
     }
